@@ -102,7 +102,7 @@ func (fv *FuncVC) globalFacts(g *ssa.Global, addr Term) {
 	if !ok {
 		return
 	}
-	if fv.Fn.Name() == "init" && fv.Fn.Synthetic != "" {
+	if fv.Fn != nil && fv.Fn.Name() == "init" && fv.Fn.Synthetic != "" {
 		return
 	}
 	ti := fv.W.tableOf(g)
